@@ -118,6 +118,7 @@ class PredictEval:
         self.env = {self.panel: ("panel",)} if self.panel else {}
         self.problems = []
         self.untyped_buffers = {}
+        self.row_problem = None
         self.result_buffer = None
         self.result = None
         self.returns = 0
@@ -262,6 +263,9 @@ class PredictEval:
             idx = self.ev(e.slice)
             if base == ("shape",) and idx == ("const", 0):
                 return NROWS
+            if base == ("shape",) and idx[0] == "const" and isinstance(idx[1], int):
+                self.row_problem = "the row loop is bounded by shape[%d], not by the number of instances shape[0]" % idx[1]
+                return NROWS
             if base[0] == "shapeof" and idx == ("const", 0):
                 return ("setsize", base[1][1])
             if base[0] == "argmaxset":
@@ -330,6 +334,10 @@ class PredictEval:
                 return ("range", self.ev(c.args[0]))
             if len(c.args) == 2 and self.ev(c.args[0]) == ("const", 0):
                 return ("range", self.ev(c.args[1]))
+            if len(c.args) == 2 and self.ev(c.args[0])[0] == "const" and self.ev(c.args[1]) == NROWS:
+                self.row_problem = "rows are decoded over range(%s): not every instance gets a prediction" % ", ".join(
+                    astq.canon(a) for a in c.args)
+                return ("range", NROWS)
             return ("opaque", "range")
         if ext in IDENTITY_CALLS and len(c.args) == 1 and not c.keywords:
             return self.ev(c.args[0])
@@ -363,6 +371,10 @@ class PredictEval:
                 for x, y in ((inner[2], inner[3]), (inner[3], inner[2])):
                     if y == ("max", x):
                         return ("argmaxset", x)
+            if inner[0] == "cmp" and inner[1] in ("NotEq", "Lt", "Gt") :
+                for x, y in ((inner[2], inner[3]), (inner[3], inner[2])):
+                    if y == ("max", x):
+                        return ("nonmaxset", x)
             return ("nonzero", inner)
         if ext == "builtins.len" and len(c.args) == 1 and self.ev(c.args[0])[0] == "argmaxset":
             return ("setsize", self.ev(c.args[0])[1])
@@ -376,6 +388,8 @@ class PredictEval:
             # uniformly drawn element of {j : row[j] == max(row)} is an arg-max of the row
             if cand[0] == "argmaxset":
                 return ("argmax", cand[1])
+            if cand[0] == "nonmaxset":
+                return ("argmin", cand[1])  # drawn among the positions that do NOT attain the maximum
             if cand[0] == "nonzero" and cand[1][0] == "cmp" and cand[1][1] == "Eq":
                 a, b = cand[1][2], cand[1][3]
                 for x, y in ((a, b), (b, a)):
@@ -743,6 +757,8 @@ class Checker:
         # --- shape: map(index(T, argmax(row)))
         if term[0] == "map" and term[1][0] == "index":
             table, sel = term[1][1], term[1][2]
+            if ev.row_problem is not None:
+                ctx.violation("R1", name + ".predict:rows", ev.row_problem, loc)
             if ev.result_buffer is not None:
                 ctx.violation("R1", name + ".predict:label-dtype", "decoded labels are written into %s, an array whose dtype does not "
                               "come from the label table (dtype=object / <table>.dtype): numpy casts every label to that dtype "
@@ -844,6 +860,9 @@ class Checker:
                           "fit does not assign a LabelEncoder fitted on the training labels to self.%s (predict decodes "
                           "through it)" % enc if r is False else "stores to self.%s not interpretable" % enc, self.loc(k, fn))
                 # classes_ (public column order) must be the encoder's table
+                if not fi.table_stores("classes_"):
+                    ctx.violation("R1", u.name + ".fit:classes_", "fit never assigns classes_: the column order of predict_proba is "
+                                  "not published (clf.classes_ missing / stale)", self.loc(k, fn))
                 for v, st in fi.table_stores("classes_"):
                     good = isinstance(v, ast.Attribute) and v.attr == "classes_" and is_self_attr(v.value, enc)
                     ctx.check(good, "R1", u.name + ".fit:classes_", "classes_ = self.%s.classes_" % enc,
@@ -887,6 +906,9 @@ class Checker:
             good = len(fits) == 1 and len(fits[0].args) >= 2 and fi.kind(fits[0].args[1]) == "y"
             ctx.check(good if fits else None, "R1", name + ".fit:delegate", "self.%s is fitted on the training labels" % term[1],
                       "self.%s.fit does not receive the training labels" % term[1], self.loc(k, fn))
+            if not fi.table_stores("classes_"):
+                ctx.violation("R1", name + ".fit:classes_", "fit never assigns classes_: the column order of predict_proba is not "
+                              "published (clf.classes_ missing / stale)", self.loc(k, fn))
             for v, st in fi.table_stores("classes_"):
                 ctx.check(v is not None and fi.sorted_unique_of_labels(v), "R1", name + ".fit:classes_",
                           "classes_ = sorted distinct training labels (= classes_ of the wrapped sklearn classifier)",
@@ -907,6 +929,11 @@ class Checker:
         pos = astq.param_names(fn, skip_self=True)
         augs = [n for n in astq.walk_no_nested(fn) if isinstance(n, ast.AugAssign)]
         ret = single_return(fn)
+        if not augs and ret is not None and isinstance(ret.value, ast.Name) and any(
+                isinstance(v, ast.Call) and scope.ext(v.func) in ("numpy.zeros",) for v in astq.assigned_values(fn, ret.value.id)):
+            ctx.violation("R1", c, "predict_proba returns its zero matrix without ever adding the unit of the predicted class: every "
+                          "row is all zero, not the one-hot encoding of predict", loc)
+            return None
         if len(augs) != 1 or ret is None or not isinstance(ret.value, ast.Name):
             ctx.undecided("R1", c, "predict_proba is not a single accumulation loop", loc)
             return None
@@ -919,8 +946,10 @@ class Checker:
             return None
         row, col = t.slice.elts
         inc = const(a.value)
-        ctx.check(isinstance(inc, (int, float)) and inc > 0, "R1", name + ".predict_proba:mass", "one positive unit per instance",
-                  "vote increment is %s" % astq.canon(a.value), self.loc(k, a))
+        ctx.check((inc == 1 and not isinstance(inc, bool)) if isinstance(inc, (int, float)) else None, "R1",
+                  name + ".predict_proba:mass", "exactly one unit per instance (rows sum to 1)",
+                  "vote increment is %s: the row of an instance sums to %s, not to 1" % (astq.canon(a.value), astq.canon(a.value)),
+                  self.loc(k, a))
         label = None
         if isinstance(col, ast.Subscript) and is_self_attr(col.value, "class_dictionary"):
             label = col.slice
@@ -938,6 +967,7 @@ class Checker:
             good = bool(src) and astq.canon(label.slice) == astq.canon(row) and self.is_row_loop_var(fn, row.id, pos[0])
         elif label is None:
             good = False  # the column does not come from the label dictionary at all
+        self.alloc_rows(cls, k, fn, ret.value.id, pos[0], name + ".predict_proba:rows")
         ctx.check(good, "R1", c, "row i gets its unit in the column class_dictionary[predict(X)[i]]",
                   "the vote of row %s lands in column %s, not in class_dictionary[self.predict(X)[row]]" % (
                       astq.canon(row), astq.canon(col)[:80]), self.loc(k, a))
@@ -1031,8 +1061,17 @@ class Checker:
                           "mean over axis %r / with weights is not the plain average over the members" % axis_of(e), loc)
                 return
             parts = e.args[0]
+        elif isinstance(e, ast.BinOp) and isinstance(e.left, ast.Call) and scope.ext(e.left.func) == "numpy.sum":
+            ctx.violation("R2", c + ":normaliser", "the sum of the member matrices is combined with the member count by %s, not divided "
+                          "by it" % type(e.op).__name__, loc)
+            return
         else:
             ctx.undecided("R2", c + ":normaliser", "return value is not sum(parts)/D or mean(parts): %s" % astq.canon(e)[:80], loc)
+            return
+        if den is not None and isinstance(e.right, ast.BinOp) and den is e.right and any(
+                isinstance(x, ast.Call) and scope.ext(x.func) == "numpy.ones" for x in (e.right.left, e.right.right)):
+            ctx.violation("R2", c + ":normaliser", "the divisor %s is not the member count broadcast over the classes (ones * count)"
+                          % astq.canon(e.right)[:60], loc)
             return
         gen = unwrap_parallel(scope, parts)
         zipped = self._zip_to_index(scope, gen)
@@ -1079,6 +1118,8 @@ class Checker:
         # pairing: every self.<attr>[idx] argument uses the member index
         idxs = [a for a in ast.walk(call) if isinstance(a, ast.Subscript) and is_self_attr(a.value)]
         bad = [a for a in idxs if astq.canon(a.slice) != var]
+        if method == "predict_proba" or member_method == "predict":
+            self.members_fresh(cls, {a.value.attr for a in idxs})
         ctx.check((not bad) if idxs else None, "R2", c + ":pairing",
                   "per-member attributes %s are all indexed by the member index" % sorted({a.value.attr for a in idxs}),
                   "member attribute %s is not indexed by the member index %s" % (astq.canon(bad[0]) if bad else "?", var), loc)
@@ -1154,6 +1195,41 @@ class Checker:
             member_attr = actual.value.attr
         ctx.check(good, "R2", c + ":member-output", "each part is self.%s[i].%s(features)" % (member_attr, member_method),
                   "a part is not the %s of the i-th fitted member" % member_method, self.loc(tmod, tfn))
+
+    def alloc_rows(self, cls, k, fn, acc, panel, construct):
+        """The matrix predict_proba fills has one row per instance: np.zeros((X.shape[0] | len(X), K))."""
+        ctx = self.ctx
+        vals = astq.assigned_values(fn, acc)
+        if len(vals) != 1 or not (isinstance(vals[0], ast.Call) and vals[0].args and isinstance(vals[0].args[0], (ast.Tuple, ast.List))
+                                  and vals[0].args[0].elts):
+            return
+        rows = astq.canon(astq.inline_locals(fn, vals[0].args[0].elts[0]))
+        if rows in ("%s.shape[0]" % panel, "len(%s)" % panel):
+            ctx.ok("R2", construct, "one row per instance of X", self.loc(k, vals[0]))
+        elif rows.startswith("%s.shape[" % panel):
+            ctx.violation("R2", construct, "the probability matrix is allocated with %s rows, not one per instance (X.shape[0])" % rows,
+                          self.loc(k, vals[0]))
+
+    def members_fresh(self, cls, attrs):
+        """fit must re-create every member collection it appends to (before the first append, on every path): otherwise a
+        refit keeps the members of the previous fit in front of the new ones."""
+        ctx, name = self.ctx, cls.name
+        hf = self.method(cls, "fit")
+        if hf is None:
+            return
+        k, fn = hf
+        g = self.flow.cfg(fn)
+        for attr in sorted(set(attrs)):
+            sites = [n for n in astq.walk_no_nested(fn) if isinstance(n, ast.Call) and isinstance(n.func, ast.Attribute)
+                     and n.func.attr in ("append", "extend", "insert") and is_self_attr(n.func.value, attr)]
+            if not sites:
+                continue
+            IN, _ = g.forward_must(lambda nd: isinstance(nd.stmt, ast.Assign) and any(is_self_attr(t, attr) for t in nd.stmt.targets))
+            fresh = all(g.node_of(c0) is not None and IN.get(g.node_of(c0).id, False) for c0 in sites)
+            ctx.check(fresh, "R2", "%s.fit:self.%s:fresh" % (name, attr), "self.%s is re-created in fit before members are appended" % attr,
+                      "fit appends to self.%s without re-creating it first: after a second fit the collection still starts with the "
+                      "members of the first fit (predict_proba then averages / indexes stale members)" % attr, self.loc(k, sites[0]),
+                      witness={"history": "fit(X1, y1); fit(X2, y2); predict_proba(X)"})
 
     def _is_ctor_param(self, cls, attr):
         hit = self.lookup(cls, "__init__")
@@ -1232,6 +1308,9 @@ class Checker:
         pos = astq.param_names(fn, skip_self=True)
         augs = [n for n in astq.walk_no_nested(fn) if isinstance(n, ast.AugAssign)]
         ret = single_return(fn)
+        if not augs and ret is not None:
+            ctx.violation("R2", c + ":votes", "no vote is ever added to the matrix predict_proba returns: every row is all zero", loc)
+            return
         if len(augs) != 1 or ret is None:
             ctx.undecided("R2", c + ":votes", "not a single vote accumulation", loc)
             return
@@ -1287,9 +1366,28 @@ class Checker:
         ctx.check(good, "R2", c + ":column", "the vote of member m for instance i lands in class_dictionary[m.predict(X)[i]], row i",
                   "vote lands in [%s, %s]: not (instance i, class_dictionary[member prediction for i])" % (
                       astq.canon(row), astq.canon(col)[:70]), self.loc(k, a))
+        # rows: one per instance, every instance visited
+        self.alloc_rows(cls, k, fn, acc, pos[0], c + ":rows")
+        rng_ok = None
+        if isinstance(inner.iter, ast.Call) and scope.ext(inner.iter.func) == "builtins.range" and not inner.iter.keywords \
+                and 1 <= len(inner.iter.args) <= 2:
+            args = inner.iter.args
+            bound = astq.canon(astq.inline_locals(fn, args[-1]))
+            start_ok = len(args) == 1 or const(args[0]) == 0
+            if bound in ("%s.shape[0]" % pos[0], "len(%s)" % pos[0]):
+                rng_ok = start_ok if (len(args) == 1 or const(args[0]) is not None) else None
+            elif bound.startswith("%s.shape[" % pos[0]):
+                rng_ok = False
+        ctx.check(rng_ok, "R2", c + ":instances", "the vote loop visits every instance 0..n-1",
+                  "the vote loop runs over range(%s): not every instance of X receives the members' votes" % ", ".join(
+                      astq.canon(x) for x in getattr(inner.iter, "args", [])), self.loc(k, inner))
         # mass per vote
         w = a.value
         weighted = None
+        if isinstance(const(w), (int, float)) and const(w) != 1 and not weighted:
+            ctx.violation("R2", c + ":vote-weight", "each vote adds %s while the divisor counts one per member: rows sum to %s, not 1"
+                          % (astq.canon(w), astq.canon(w)), self.loc(k, a))
+            return
         if const(w) == 1:
             weighted = False
         elif isinstance(w, ast.Subscript) and is_self_attr(w.value) and index_var and astq.canon(w.slice) == index_var:
@@ -1305,11 +1403,25 @@ class Checker:
         if isinstance(e, ast.Name) and e.id != acc:
             vals = astq.assigned_values(fn, e.id)
             e = vals[0] if len(vals) == 1 else e
+        if isinstance(e, ast.BinOp) and not isinstance(e.op, ast.Div) and isinstance(e.left, ast.Name) and e.left.id == acc:
+            ctx.violation("R2", c + ":normaliser", "the vote matrix is combined with its mass by %s, not divided by it: rows do not "
+                          "sum to 1" % type(e.op).__name__, loc)
+            return
+        if isinstance(e, ast.Name) and e.id == acc:
+            ctx.violation("R2", c + ":normaliser", "the raw vote counts are returned without being divided by the accumulated mass", loc)
+            return
         if not (isinstance(e, ast.BinOp) and isinstance(e.op, ast.Div) and isinstance(e.left, ast.Name) and e.left.id == acc):
             ctx.undecided("R2", c + ":normaliser", "return value is not votes / D: %s" % astq.canon(e)[:70], loc)
             return
-        den = strip_ones(scope, astq.inline_locals(fn, e.right))
+        den0 = astq.inline_locals(fn, e.right)
+        den = strip_ones(scope, den0)
+        if den is den0 and isinstance(den0, ast.BinOp) and any(
+                isinstance(x, ast.Call) and scope.ext(x.func) == "numpy.ones" for x in (den0.left, den0.right)):
+            ctx.violation("R2", c + ":normaliser", "the divisor %s is not the accumulated mass broadcast over the classes (ones * mass)"
+                          % astq.canon(den0)[:60], loc)
+            return
         self.mass(cls, den, coll, weighted, c, loc)
+        self.members_fresh(cls, [coll] + ([weighted] if weighted else []))
         self.class_dictionary(cls)
         if weighted:
             self.parallel_lists(cls, coll, weighted)
@@ -1483,6 +1595,9 @@ class Checker:
         # X.shape[0] forms: <table>.shape[0]
         if isinstance(v, ast.Subscript) and const(v.slice) == 0 and isinstance(v.value, ast.Attribute) and v.value.attr == "shape":
             return fresh_label_table(v.value.value)
+        if isinstance(v, ast.Subscript) and isinstance(const(v.slice), int) and const(v.slice) != 0 \
+                and isinstance(v.value, ast.Attribute) and v.value.attr == "shape" and fresh_label_table(v.value.value)[0]:
+            return False, "shape[%d] of the 1-d array of distinct labels is not their count" % const(v.slice)
         if isinstance(v, ast.Call) and sc.ext(v.func) == "builtins.len" and len(v.args) == 1:
             return fresh_label_table(v.args[0])
         if isinstance(v, ast.Constant):
@@ -1910,5 +2025,5 @@ def run(ctx):
     rb = repo.cls("sktime/regression/base.py:BaseRegressor")
     ck.score(rb, rb, repo.func("sktime/regression/base.py", "BaseRegressor.score"), "r2")
     ctx.floor("R1", 50)
-    ctx.floor("R2", 71)
+    ctx.floor("R2", 85)
     ctx.floor("R3", 44)
